@@ -131,7 +131,7 @@ Section ProvA.
   Definition ictx_ok (c : ictx) : Prop := TI (c_dst c) /\ TI (c_src c) /\ core_ok (c_core c).
   Definition gparam_ok (g : gparam) : Prop := P (gp_name g) /\ TI (gp_decl g).
   Definition tview_ok (t : tview) : Prop :=
-    Forall gparam_ok (tv_generics t) /\ dview_ok (tv_data t) /\ opt_ok (fun w => Forall TI (wa_preds w)) (tv_where t).
+    Forall gparam_ok (tv_generics t) /\ dview_ok (tv_data t) /\ opt_ok (fun w => Forall TI (wa_preds w)) (tv_where t) /\ Forall TI (tv_own_where t).
 
   (* ---- results ---- *)
   Definition RR {A} (Q : A -> Prop) (r : res A) : Prop := forall a, r = Ok a -> Q a.
